@@ -176,6 +176,23 @@ def o12(ctx):
                         "written (0.7 instead of 0.699999988...): " + tm.show(dt)[:160], fn, m)
         else:
             raise Unsupported("data source of the table in read_in: " + tm.show(dt)[:160], fn)
+    # a list made from a path holds the table read_in built, nothing done to it on the way (EmMotl(path), Motl.load(path))
+    from sa.interp import Frame_
+    it3 = Interp(ctx.prog, assume=assume_map({"not os.path.isfile(emfile_path)": False}))
+    mm, cn = ctx.prog.cls("cryomotl.EmMotl")
+    obj = it3.lib.construct(it3, ClassRef("cryomotl.EmMotl"), [K("in.em")], {}, cn, Frame_("<spec>", mm, {}))
+    df3 = obj.attrs.get("df") if isinstance(obj, Obj) else None
+    if not isinstance(df3, Frame):
+        raise Unsupported("EmMotl(path) does not hold a table", cn)
+    ctx.touched("cryomotl.EmMotl.__init__")
+    for c_ in EM_FIELDS:
+        ctx.count(1)
+        if c_ in df.cols and df3.cols.get(c_) != df.cols[c_]:
+            site = last_store(it3, df3, c_) or cn
+            ctx.finding("cryomotl.EmMotl.__init__", f"field {c_} of a list loaded from a file", f"EmMotl(path) must hold the table read_in built from "
+                        f"the file: field {c_} becomes {tm.show(df3.cols.get(c_))[:120] if df3.cols.get(c_) is not None else 'absent'} "
+                        f"(read_in: {tm.show(df.cols[c_])[:60]})", site, m)
+            break
     # column-count guard
     ctx.count(1)
     guards = [e for e in it.events if e.kind == "raise" and any(
@@ -275,4 +292,4 @@ def _obligations():
 
 
 def obligations():
-    return _obligations() + [constructors_obligation(['cryomotl.Motl', 'cryomotl.EmMotl']), labels_obligation("C01"), selectors_obligation("C01"), effects_obligation("C01"), plumbing_obligation("C01")]
+    return _obligations() + [constructors_obligation(['cryomotl.Motl', 'cryomotl.EmMotl']), labels_obligation("C01"), selectors_obligation("C01"), effects_obligation("C01"), plumbing_obligation("C01"), overrides_obligation("C01"), options_obligation("C01")]
